@@ -147,7 +147,13 @@ Definition violation (c : case) : option string :=
       match obs c with
       | Ok ds =>
           let dig := firstn 32 ds in let sig := skipn 32 ds in
-          if answer_shaped c && negb (shape_ok sig) then Some "sig-shape"%string
+          (* the hash handed to the key signer is the digest stored in the message ... *)
+          if negb (match asked c with Some h => bytes_eqb h dig | None => false end)
+          then Some "signed-other-hash"%string
+          (* ... the emitted r||s is the key signer's r||s ... *)
+          else if negb (match answer c with Ok s => bytes_eqb (firstn 64 s) (firstn 64 sig) | _ => false end)
+          then Some "sig-shape"%string
+          else if answer_shaped c && negb (shape_ok sig) then Some "sig-shape"%string
           else match (if kind c =? 3 then spec_digest 1 (msg c) else spec_digest 2 (msg c)) with
                | Some d => if bytes_eqb d dig then None else Some "digest-differs"%string
                | None => None
